@@ -33,6 +33,7 @@ var c12Names = []struct{ name, body string }{
 	{"txt", "gg hh ii gg hh"},
 	{"y.ptxt", "jj kk ll jj kk"},
 	{"e.txt", ""},
+	{"0.txt", "mm nn oo mm nn"}, // sorts before every directory component: visited first by the walk
 }
 
 var c12Comps = []string{"License", "Foo", "sub", "deep"}
@@ -75,7 +76,7 @@ func c12Trees(c *vrep.Ctx) {
 	}
 	leaves := []string{"corp", "nest/ed"}
 	queries := [][]byte{[]byte("zqa aa bb cc aa bb zqb"), []byte("zqa cc bb aa cc bb aa"), []byte("gg hh ii gg hh\njj kk ll jj kk"), []byte("zqa")}
-	c.R.Rule = fmt.Sprintf("all sets of <=%d files drawn from depth 1..5 x names {a.txt, b.txt, x.md, txt, y.ptxt, empty e.txt} (%d options), built in a private temp dir, x %d spellings of the directory (absolute/relative, ./ prefix, trailing separator) x {single, multi-component} directory; LoadLicenses must not panic or fail; files shallower than category/name/variant or not ending in 'txt' are ignored; if every remaining file sits at depth 3 the corpus (keys and word sequences, white-box) and Match on a query menu equal a classifier built by AddContent per file; non-trivial = distinct (tree, spelling) cases with at least one loadable file", maxFiles, len(options), len(c12Spellings))
+	c.R.Rule = fmt.Sprintf("all sets of <=%d files drawn from depth 1..5 x names {a.txt, b.txt, x.md, txt, y.ptxt, empty e.txt, 0.txt (sorts before the directories)} (%d options), built in a private temp dir, x %d spellings of the directory (absolute/relative, ./ prefix, trailing separator) x {single, multi-component} directory; LoadLicenses must not panic or fail; files shallower than category/name/variant or not ending in 'txt' are ignored; if every remaining file sits at depth 3 the corpus (keys and word sequences, white-box) and Match on a query menu equal a classifier built by AddContent per file; non-trivial = distinct (tree, spelling) cases with at least one loadable file", maxFiles, len(options), len(c12Spellings))
 	c.Bound("max_files", maxFiles)
 	c.Bound("spellings", len(c12Spellings))
 	tmp, err := os.MkdirTemp("", "verif-c12-")
